@@ -151,7 +151,7 @@ func genScenario(rng *rand.Rand, seed uint64, index int) *Scenario {
 	sc.SelfReferral = rng.IntN(2) == 0
 	sc.HugeApexNS = rng.IntN(3) != 0
 	sc.NSChange = rng.IntN(2) == 0
-	sc.Glueless = rng.IntN(4) == 0
+	sc.Glueless = rng.IntN(3) == 0
 	if sc.Glueless {
 		v.Servers = 2
 	}
